@@ -611,4 +611,10 @@ def run(ctx, rep):
                 n = norm(t.args[4][0])
                 ok = n[0] == "call" and n[1] == "string_table::StringTable::get" and n[2][0] == F_(P(1), "strtab") and n[2][1][0] == "fld" and n[2][1][2] == "vda_name"
         rep.require(ok, "iterator", "SymbolNamesIterator::next", wh(fn["span"]), "names = strtab.get(vda.vda_name) for each aux record", "SymbolNamesIterator::next does not look vda_name up in its string table")
+    # cited so far, run from now on: the records and VersionIndex::{index, is_hidden} decode per the ABI (C02), the index table is coherent
+    # (C09), names are read by the string-table rule (C15)
+    from ._common import premise
+    premise(ctx, rep, "C02", "version records and VersionIndex decode per the ABI", rules={"decode", "decode-reads", "decode-size", "decode-errors", "derived", "premise"}, where="src/gnu_symver.rs")
+    premise(ctx, rep, "C09", "the version index table is coherent", rules={"table", "iterator", "entry-advance"}, where="src/parse.rs")
+    premise(ctx, rep, "C15", "names are the strings at the recorded offsets", rules={"strtab"}, where="src/string_table.rs")
     rep.trusted_base += ["C02: decoding of the version records and of VersionIndex::{index,is_hidden}; C15: string lookup; C16: iterator termination"]
